@@ -47,6 +47,18 @@ type gen1Result struct {
 	OK        bool   `json:"ok"`
 }
 
+// gen1Config is the configuration of one C15 generation: the options beside the
+// document come from the environment (set per case by the worker).
+func gen1Config(client bool) inproc.Config {
+	cfg := inproc.Config{Client: client, DoNotEdit: true, CustomTypesIgnore: os.Getenv("VERIF_GEN1_CUSTOM_TYPES_IGNORE") != "",
+		Cors: os.Getenv("VERIF_GEN1_CORS") != "", NoAPIHandler: os.Getenv("VERIF_GEN1_NO_API_HANDLER") != "", BasePath: os.Getenv("VERIF_GEN1_BASEPATH")}
+	cfg.SpecHandlerName = "openapi.yaml"
+	if v, ok := os.LookupEnv("VERIF_GEN1_SPEC_HANDLER"); ok {
+		cfg.SpecHandlerName = v
+	}
+	return cfg
+}
+
 func cmdGen1(specPath, outDir string, client bool) int {
 	// never outlive the parent's patience (a parent that is killed cannot kill us)
 	time.AfterFunc(100*time.Second, func() { os.Exit(3) })
@@ -71,7 +83,7 @@ func cmdGen1(specPath, outDir string, client bool) int {
 		gen := filepath.Join(outDir, "gen")
 		os.MkdirAll(work, 0o755)
 		os.MkdirAll(gen, 0o755)
-		oc := inproc.Generate(bs, inproc.Config{Client: client, DoNotEdit: true, CustomTypesIgnore: os.Getenv("VERIF_GEN1_CUSTOM_TYPES_IGNORE") != ""}, work, gen)
+		oc := inproc.Generate(bs, gen1Config(client), work, gen)
 		switch {
 		case oc.Panic != "":
 			out.Panic = oc.Panic
@@ -756,8 +768,13 @@ func c15Judge(self, dir string, doc map[string]any, client bool, cli string, via
 		os.RemoveAll(cliOut)
 		os.MkdirAll(cliOut, 0o755)
 		ctx, cancel := context.WithTimeout(context.Background(), 30*time.Second)
-		cfg := inproc.Config{Client: client, DoNotEdit: true}
-		cmd := exec.CommandContext(ctx, cli, cfg.CLIArgs(specPath, filepath.Join(dir, "nonexistent.goag.yaml"), cliOut)...)
+		cfg := gen1Config(client)
+		cfgFile := filepath.Join(dir, "nonexistent.goag.yaml")
+		if y := cfg.GoagYAML(); y != nil {
+			cfgFile = filepath.Join(dir, "cli.goag.yaml")
+			os.WriteFile(cfgFile, y, 0o644)
+		}
+		cmd := exec.CommandContext(ctx, cli, cfg.CLIArgs(specPath, cfgFile, cliOut)...)
 		var se bytes.Buffer
 		cmd.Stderr = &se
 		cmd.Stdout = &se
@@ -805,7 +822,16 @@ func c15Worker(e *Env) *res.Result {
 		after, _ := json.Marshal(doc)
 		client := rapid.Bool().Draw(t, "client")
 		viaCLI := rapid.IntRange(0, 19).Draw(t, "via_cli") == 0
+		// the options a user may pass beside the document (gen1 reads them from the environment)
+		handlerName := rapid.SampledFrom([]string{"openapi.yaml", "openapi.yaml", "openapi.yaml", "openapi", "v1/openapi", "", "spec.", ".hidden"}).Draw(t, "spec_handler_name")
+		os.Setenv("VERIF_GEN1_SPEC_HANDLER", handlerName)
+		os.Setenv("VERIF_GEN1_CORS", map[bool]string{true: "1", false: ""}[rapid.IntRange(0, 2).Draw(t, "cors") == 0])
+		os.Setenv("VERIF_GEN1_NO_API_HANDLER", map[bool]string{true: "1", false: ""}[rapid.IntRange(0, 7).Draw(t, "no_api_handler") == 0])
+		os.Setenv("VERIF_GEN1_BASEPATH", rapid.SampledFrom([]string{"", "", "", "/x", "/", "x"}).Draw(t, "basepath"))
 		v := c15Judge(self, dir, doc, client, cli, viaCLI)
+		if handlerName != "openapi.yaml" {
+			r.Label("option:spec-handler-name-unusual")
+		}
 		r.Evaluations++
 		r.Label("outcome:" + v.Class)
 		if v.Class == "loader-rejected" {
@@ -832,6 +858,9 @@ func c15Worker(e *Env) *res.Result {
 			t.Fatalf("%s", v.Detail)
 		}
 		r.Sample(map[string]any{"mutations": descr, "client": client, "via_cli": viaCLI, "outcome": v.Class, "error": clip(v.Detail, 160)}, 6)
+	}
+	if e.Shard == 0 && cli != "" {
+		c15DirMode(e, r, cli, dir)
 	}
 	ok, _ := rt.Check("C15", rt.Seed(e.Seed, rt.SeedStr("C15"), uint64(e.Shard)), n, 30*time.Second, prop)
 	if !ok && lastFail != nil {
@@ -869,4 +898,39 @@ func c15Replay(e *Env, path string) *res.Result {
 		r.Fail(res.Failure{Property: "C15", Kind: v.Kind, Clause: "replay", Detail: v.Detail})
 	}
 	return r
+}
+
+// c15DirMode: the command's --dir mode (one spec per sub-directory) exits non-zero
+// when any of the directories cannot be generated, wherever it stands in the order,
+// and zero when all can.
+func c15DirMode(e *Env, r *res.Result, cli, dir string) {
+	good := `{"openapi":"3.0.3","info":{"title":"t","version":"1"},"paths":{"/x":{"get":{"responses":{"default":{"description":""}}}}}}`
+	bad := `{"openapi":"3.0.3","info":{"title":"t","version":"1"},"paths":{"/x":{"get":{"parameters":[{"name":"q","in":"query","schema":{"type":"number","format":"decimal"}}],"responses":{"default":{"description":""}}}}}}`
+	names := []string{"a_first", "m_middle", "z_last"}
+	for _, badAt := range []int{-1, 0, 1, 2} {
+		tree := filepath.Join(dir, fmt.Sprintf("dirmode%d", badAt+1))
+		os.RemoveAll(tree)
+		for i, n := range names {
+			os.MkdirAll(filepath.Join(tree, n), 0o755)
+			content := good
+			if i == badAt {
+				content = bad
+			}
+			os.WriteFile(filepath.Join(tree, n, "openapi.yaml"), []byte(content), 0o644)
+		}
+		ctx, cancel := context.WithTimeout(context.Background(), 60*time.Second)
+		cmd := exec.CommandContext(ctx, cli, "--dir", tree, "--package", "svc")
+		cmd.Dir = tree
+		out, err := cmd.CombinedOutput()
+		cancel()
+		r.Evaluations++
+		r.Label("dir-mode:checked")
+		failed := err != nil
+		if failed != (badAt >= 0) {
+			r.Fail(res.Failure{Property: "C15", Kind: "cli-dir-mode-exit-status", Clause: "exit-status",
+				Detail: fmt.Sprintf("goag --dir over %v with the ungenerable spec at position %d: exit failure=%v, want %v; output: %s", names, badAt, failed, badAt >= 0, tail(string(out), 400)),
+				Replay: map[string]any{"openapi.json": bad, "mutations.txt": fmt.Sprintf("--dir mode, broken spec in directory %d of %v", badAt, names)}})
+		}
+		os.RemoveAll(tree)
+	}
 }
